@@ -96,7 +96,9 @@ def main():
     hygiene = coq_hygiene()
     if build_ok and src:
         for pf in props_files:
-            rc2, out2 = sh("cd coq && timeout 1500 coqc -Q . RV %s" % os.path.relpath(pf, "coq"), timeout=1600)
+            # compile to a private output file: other checks may be building in coq/ at the same time
+            priv = os.path.join(work, os.path.basename(pf)[:-2] + ".vo")
+            rc2, out2 = sh("cd coq && timeout 1500 coqc -Q . RV -o %s %s" % (priv, os.path.relpath(pf, "coq")), timeout=1600)
             assumptions_text += out2 + "\n"
             if rc2 == 0:
                 discharged += len(re.findall(r"Closed under the global context|^Axioms:", out2, flags=re.M))
